@@ -90,11 +90,11 @@ pub(crate) mod kani_verif {
             }
         };
     }
-    // @h name=c07_ots_sign_n16_w8 props=C07,C12,C01,C02 tier=thorough kind=proved cfg=w8 timeout=2400 funcs=LmotsSignature::sign;LmotsSignature::sign_core;LmotsSignature::calculate_signature;LmotsSignature::calculate_message_hash;LmotsSignature::to_binary_representation;InMemoryLmotsSignature::new contract="RFC 8554 Alg. 3: Q = H(I||q||D_MESG||C||msg), y_i = do_hash_chain(i, x_i, 0, coef(Q||Cksm(Q), i, w)), bytes = u32(type)||C||y_0..y_{p-1}; every key/C/5-byte message, every hash function; n=16, w=8"
+    // @h name=c07_ots_sign_n16_w8 props=C07,C12,C01,C02 tier=extended kind=proved cfg=w8 timeout=2400 funcs=LmotsSignature::sign;LmotsSignature::sign_core;LmotsSignature::calculate_signature;LmotsSignature::calculate_message_hash;LmotsSignature::to_binary_representation;InMemoryLmotsSignature::new contract="RFC 8554 Alg. 3: Q = H(I||q||D_MESG||C||msg), y_i = do_hash_chain(i, x_i, 0, coef(Q||Cksm(Q), i, w)), bytes = u32(type)||C||y_0..y_{p-1}; every key/C/5-byte message, every hash function; n=16, w=8"
     h!(c07_ots_sign_n16_w8, check_sign::<16, 64, 5>(8), 36);
-    // @h name=c07_ots_sign_n16_w4 props=C07,C12,C01,C02 tier=thorough kind=proved cfg=default timeout=3000 funcs=LmotsSignature::sign;LmotsSignature::sign_core;LmotsSignature::calculate_signature contract="same, n=16, w=4 (p=35)"
+    // @h name=c07_ots_sign_n16_w4 props=C07,C12,C01,C02 tier=extended kind=proved cfg=default timeout=3000 funcs=LmotsSignature::sign;LmotsSignature::sign_core;LmotsSignature::calculate_signature contract="same, n=16, w=4 (p=35)"
     h!(c07_ots_sign_n16_w4, check_sign::<16, 64, 5>(4), 40);
-    // @h name=c07_ots_sign_n24_w8 props=C07,C12,C01,C02 tier=thorough kind=proved cfg=w8 timeout=3000 funcs=LmotsSignature::sign;LmotsSignature::sign_core;LmotsSignature::calculate_signature contract="same, n=24, w=8 (p=26), empty message"
+    // @h name=c07_ots_sign_n24_w8 props=C07,C12,C01,C02 tier=extended kind=proved cfg=w8 timeout=3000 funcs=LmotsSignature::sign;LmotsSignature::sign_core;LmotsSignature::calculate_signature contract="same, n=24, w=8 (p=26), empty message"
     h!(c07_ots_sign_n24_w8, check_sign::<24, 64, 0>(8), 36);
 
     // ------------------------------------------------------------------ C15: fast-verify message hash
